@@ -323,13 +323,14 @@ def shift_spec(spec, dx):
     return spec
 
 
-def to_tenths(rng, values):
-    """Element values moved onto decimal tenths and rounded to float32 (the exact float64 value
-    of the float32 number is kept, so the model holds what the array stores)."""
+def to_tenths(rng, values, f32=True):
+    """Element values moved onto decimal tenths, rounded to float32 unless f32=False (the exact
+    float64 value of the stored number is kept, so the model holds what the array stores)."""
     def one(c):
         if c != c:
             return c
-        return float(np.float32(min(16.0, int(c) + rng.randint(0, 9) / 10)))
+        v = min(16.0, int(c) + rng.randint(0, 9) / 10)
+        return float(np.float32(v)) if f32 else v
 
     def rec(v):
         if v is None:
